@@ -15,8 +15,8 @@ pub fn def() -> PropDef {
         run,
         shrink: Shrink::Bytes,
         render: render_bytes,
-        rule: "every header the real parser accepts in U2-ctl, U2-len (stride over lengths, all lengths near boundaries), U2-addr, U2-sig, U2-byte and the embedded TLV sections (every string over a 5-byte alphabet up to n, structured sequences with every truncation) is rebuilt through the real Builder four ways (raw views; tlvs() as a section; decoded items when well-formed; decoded address value) and compared with the original bytes; non-trivial = accepted; distinct = hash of (control bytes, length, first 64 payload bytes)",
-        assumptions: &["lengths between boundaries are covered with a stride (quick 257, thorough 17) because each rebuild copies the payload"],
+        rule: "every header the real parser accepts in U2-ctl, U2-len (24 valid control pairs x lengths: stride 7 quick, every length thorough; all lengths near boundaries), U2-addr, U2-sig, U2-byte and the embedded TLV sections (every string over a 5-byte alphabet up to n, structured sequences with every truncation) is rebuilt through the real Builder four ways (raw views; tlvs() as a section; decoded items when well-formed; decoded address value) and compared with the original bytes; non-trivial = accepted; distinct = hash of (control bytes, length, first 64 payload bytes)",
+        assumptions: &["quick tier: lengths between boundaries are covered with a stride of 7 because each rebuild copies the payload; thorough tier: every length 0..=65535"],
     }
 }
 
@@ -100,7 +100,7 @@ pub fn judge(input: &[u8], acc: &mut Acc) {
 
 pub fn run(run: &Run) {
     run.explore(&u2::CtlUniverse);
-    run.explore(&u2::LenUniverse { presents: u2::Presents::AcceptedStride(run.tier.pick(257, 17)), name: "U2-len/accepted-stride" });
+    run.explore(&u2::LenUniverse { presents: u2::Presents::AcceptedStride(run.tier.pick(7, 1)), name: "U2-len/accepted-stride" });
     run.explore(&u2::sig_universe());
     run.explore(&u2::addr_universe());
     run.explore(&u2::byte_universe(run.tier.pick(3, 4)));
